@@ -30,6 +30,7 @@ Definition header_ok (h : Header) : Prop :=
   (if Z.geb (h_Version h) 3 then -32768 <= h_StreamId h < 32768 else -128 <= h_StreamId h < 128) /\
   OpCode_IsValid (h_OpCode h) = true /\
   (if h_IsResponse h then OpCode_IsResponse (h_OpCode h) else OpCode_IsRequest (h_OpCode h)) = true /\
+  dse_opcode_ok (h_Version h) (h_OpCode h) = true /\
   in_i32 (h_BodyLength h).
 
 Definition hdr_stream_bytes (h : Header) : bytes :=
@@ -55,7 +56,7 @@ Proof. reflexivity. Qed.
 
 Lemma encode_header_ok h : header_ok h -> encode_header h = Ok (hdr_bytes h).
 Proof.
-  intros (Hv & Hf & Hs & Hop & Hdir & Hl). unfold encode_header.
+  intros (Hv & Hf & Hs & Hop & Hdir & Hdse & Hl). unfold encode_header.
   rewrite (supported_check _ Hv). cbn [wguard]. rewrite wapp_nil_l.
   change (ProtocolVersion_IsBeta (h_Version h)) with false. cbn [andb negb wguard]. rewrite wapp_nil_l.
   pose proof (opcode_valid_range _ Hop) as Hopr.
@@ -79,7 +80,7 @@ Lemma decode_header_app h rest : header_ok h -> decode_header (hdr_bytes h ++ re
 Proof.
   destruct h as [r v fl sid op len]. unfold header_ok, decode_header, hdr_bytes, hdr_stream_bytes.
   cbn [h_IsResponse h_Version h_Flags h_StreamId h_OpCode h_BodyLength].
-  intros (Hv & Hf & Hs & Hop & Hdir & Hl). rewrite <- !app_assoc.
+  intros (Hv & Hf & Hs & Hop & Hdir & Hdse & Hl). rewrite <- !app_assoc.
   destruct (version_byte v r (supported_cases _ Hv)) as (Hvd & Hr & Hver).
   unfold bind at 1. rewrite read_byte_app by (unfold in_u8; exact Hvd). rewrite Hr, Hver.
   unfold bind at 1. rewrite read_byte_app by (unfold in_u8; exact Hf).
@@ -98,6 +99,7 @@ Proof.
   unfold bind at 1. rewrite read_byte_app by (unfold in_u8; exact Hopr).
   unfold bind at 1. rewrite read_int_app by exact Hl.
   unfold CheckValidOpCode. rewrite Hop. cbn [negb is_ok rguard]. unfold bind at 1, ret at 1.
+  rewrite Hdse. cbn [rguard]. unfold bind at 1, ret at 1.
   unfold CheckResponseOpCode, CheckRequestOpCode.
   destruct r; rewrite Hdir; cbn [negb is_ok rguard]; unfold bind at 1, ret at 1; reflexivity.
 Qed.
@@ -135,6 +137,7 @@ Section WithCodec.
     (if Z.geb (h_Version h) 3 then -32768 <= h_StreamId h < 32768 else -128 <= h_StreamId h < 128) /\
     h_IsResponse h = msg_is_response (bd_Message b) /\
     h_OpCode h = msg_opcode (bd_Message b) /\
+    dse_opcode_ok (h_Version h) (h_OpCode h) = true /\
     body_ok h b.
 
   (* what the wire carries: the message in normal form; an empty, unflagged warning list is nil *)
@@ -222,10 +225,10 @@ Section WithCodec.
 
   Lemma frame_header_ok f n : frame_ok f -> in_i32 n -> header_ok (with_body_length (f_Header f) n).
   Proof.
-    intros (Hv & Hf & Hs & Hr & Hop & Hb) Hn. unfold header_ok, with_body_length.
+    intros (Hv & Hf & Hs & Hr & Hop & Hdse & Hb) Hn. unfold header_ok, with_body_length.
     cbn [h_Version h_Flags h_StreamId h_OpCode h_IsResponse h_BodyLength].
     destruct (msg_opcode_valid (bd_Message (f_Body f))) as [Hval Hdir].
-    rewrite Hr, Hop. repeat split; try assumption; try lia; apply Hn.
+    rewrite Hop in Hdse. rewrite Hr, Hop. repeat split; try assumption; try lia; apply Hn.
   Qed.
 
   Definition encoded_plain (f : Frame) (mb : bytes) : bytes :=
@@ -243,7 +246,7 @@ Section WithCodec.
       DOk {| f_Header := with_body_length (f_Header f) (zlen (body_bytes (f_Header f) (f_Body f) mb));
              f_Body := norm_body (f_Header f) (f_Body f) |} rest.
   Proof.
-    intros Hok Hnc Hmb Hsmall. pose proof Hok as (Hv & Hf & Hs & Hr & Hop & Hb).
+    intros Hok Hnc Hmb Hsmall. pose proof Hok as (Hv & Hf & Hs & Hr & Hop & Hdse & Hb).
     set (h := f_Header f) in *. set (b := f_Body f) in *. set (n := zlen (body_bytes h b mb)) in *.
     assert (Hn : in_i32 n) by (unfold in_i32, n; pose proof (zlen_nonneg (body_bytes h b mb)); lia).
     pose proof (frame_header_ok f n Hok Hn) as Hh. fold h in Hh.
@@ -274,7 +277,7 @@ Section WithCodec.
       DOk {| f_Header := with_body_length (f_Header f) (zlen y);
              f_Body := norm_body (f_Header f) (f_Body f) |} rest.
   Proof.
-    intros Hok Hc Hloss Hmb Hy Hsmall. pose proof Hok as (Hv & Hf & Hs & Hr & Hop & Hb).
+    intros Hok Hc Hloss Hmb Hy Hsmall. pose proof Hok as (Hv & Hf & Hs & Hr & Hop & Hdse & Hb).
     set (h := f_Header f) in *. set (b := f_Body f) in *.
     assert (Hn : in_i32 (zlen y)) by (unfold in_i32; pose proof (zlen_nonneg y); lia).
     pose proof (frame_header_ok f (zlen y) Hok Hn) as Hh. fold h in Hh.
@@ -359,7 +362,7 @@ Section WithCodec.
     exists rf, convert_to_raw mc comp f = Ok rf /\ encode_raw_frame rf = Ok (encoded_plain f mb) /\
                rf_Body rf = Some (body_bytes (f_Header f) (f_Body f) mb).
   Proof.
-    intros Hok Hnc Hmb Hsmall. pose proof Hok as (Hv & Hf & Hs & Hr & Hop & Hb).
+    intros Hok Hnc Hmb Hsmall. pose proof Hok as (Hv & Hf & Hs & Hr & Hop & Hdse & Hb).
     set (h := f_Header f) in *. set (b := f_Body f) in *. set (n := zlen (body_bytes h b mb)) in *.
     assert (Hn : in_i32 n) by (unfold in_i32, n; pose proof (zlen_nonneg (body_bytes h b mb)); lia).
     pose proof (frame_header_ok f n Hok Hn) as Hh. fold h in Hh.
